@@ -1,5 +1,6 @@
 """C07 - after a unilateral close every entitled output is recovered, validly and in time (structural part)."""
 from engine import *
+import obligations
 import provenance
 import chainrules
 
@@ -459,3 +460,4 @@ RULES = [
 	('07.s', 'no reviewed function gained a short-circuiting iterator adaptor (find / find_map / take / position ...: an every-element walk that stops at the first match; rules/provenance.py)', lambda F: provenance.sc_for_property(F, 'C07', '07.s')),
 	('07.y', 'no reviewed function gained a swallowed error (the Result of a fallible in-crate call dropped; rules/provenance.py)', lambda F: provenance.dr_for_property(F, 'C07', '07.y')),
 ]
+RULES.append(('07.u', 'obligation-carrying values returned by workspace calls (to-fail HTLC lists, monitor updates, events, peer messages, claim packages) are never dropped on a path that does not examine them (rules/obligations.py)', lambda F: obligations.for_property(F, 'C07', '07.u')))
